@@ -49,6 +49,14 @@ Sensitivity (scratch copies, quick tier, seed 1):
     token -> caught at seeds 1,2,3 (accepted_without_matching_token; edge part: 7 gated methods x 3 cookies x
     {no token, foreign, malformed, hex junk, empty, mutated, issued, re-masked} x 4 carriers, and the exploration's
     method factor).  Missed before: the handler only implemented the standard methods.
+  * web.py _decode_xsrf_token decodes the v2 hex fields with bytes.fromhex, which skips ASCII whitespace between byte
+    pairs: "2|aa bb cc dd|...|ts" accepted -> caught at seeds 1,2,3 (accepted_without_matching_token).  Missed before:
+    malformed tokens were fixed strings, never a VALID token with one field re-spelt.  New spec ("variant", base, field,
+    kind) / cookie specs variant2, variant1: 12 spellings (spaces / tabs / NBSP between byte pairs, leading / trailing /
+    inner blank, 0x prefix, + and - sign, underscores, upper case = the one valid spelling, extra separator) applied to
+    each field of v2 and to v1 tokens and cookies; enumerated in "edge" (12 kinds x 4 fields x carriers) and sampled.
+    Model corrections that came with it: the request cookie parser trims whitespace around a cookie value; an interior
+    HTAB is an ordinary character (not an EITHER class).
 The "edge" part runs every malformed string (~47: over-long version prefixes and timestamps, odd/non-hex masks,
 non-ASCII digits, versions 0 / -1 / +2 / 2_0, wrong field counts ...) as cookie and as token through body, query,
 multipart and header carriers for both app versions, plus every (blank earlier carrier, later carrier) pair x
@@ -120,7 +128,7 @@ _VER = re.compile(r"([1-9][0-9]*)\|", re.A)
 
 def dec(text):
     """-> ("ok", secret) | ("bad",) | ("either",)"""
-    if any(ord(c) < 0x20 or ord(c) == 0x7F for c in text):
+    if any((ord(c) < 0x20 and c != "\t") or ord(c) == 0x7F for c in text):
         return ("either",)
     m = _VER.match(text)
     if m:
@@ -189,6 +197,10 @@ def build_cookie(version, seed, spec):
         return enc_v2(secret_of(seed), spec[1], spec[2]), {"cookie_v2"}
     if kind == "enc1":
         return enc_v1(secret_of(seed), spec[1]), {"cookie_v1"}
+    if kind == "variant2":
+        return vary_token(enc_v2(secret_of(seed), b"abcd", "5"), spec[1], spec[2]), {"cookie_field_variant"}
+    if kind == "variant1":
+        return vary_token(enc_v1(secret_of(seed), False), 0, spec[2]), {"cookie_field_variant"}
     if kind == "literal":
         return spec[1], {"cookie_literal"}
     raise AssertionError(kind)
@@ -228,11 +240,39 @@ def build_token(version, seed, cookie, csecret, spec, labels):
         repl = spec[3] if spec[3] != c else ("0" if c != "0" else "1")
         labels.add("token_mutated")
         return base[:pos] + repl + base[pos + 1:]
+    if kind == "variant":
+        base = build_token(version, seed, cookie, csecret, spec[1], labels)
+        if not isinstance(base, str) or not base:
+            return base
+        labels.add("token_field_variant")
+        return vary_token(base, spec[2], spec[3])
     if kind == "literal":
         return spec[1]
     if kind == "bytes":
         return spec[1]
     raise AssertionError(kind)
+
+
+VARIANT_KINDS = ["sp_pairs", "tab_pairs", "lead_sp", "trail_sp", "sp_mid", "0x", "plus", "minus", "under", "upper",
+                 "nbsp_pairs", "dup_sep"]
+
+
+def vary_field(f: str, kind: str) -> str:
+    pairs = [f[i:i + 2] for i in range(0, len(f), 2)] or [""]
+    return {
+        "sp_pairs": " ".join(pairs), "tab_pairs": "\t".join(pairs), "nbsp_pairs": "\xa0".join(pairs),
+        "lead_sp": " " + f, "trail_sp": f + " ", "sp_mid": f[:1] + " " + f[1:], "0x": "0x" + f, "plus": "+" + f,
+        "minus": "-" + f, "under": "_".join(pairs), "upper": f.upper(), "dup_sep": f + "|",
+    }[kind]
+
+
+def vary_token(token: str, field: int, kind: str) -> str:
+    """Whitespace / sign / underscore / prefix variants inside one '|'-separated field of a token (a v1 token is
+    its single field)."""
+    fields = token.split("|")
+    field %= len(fields)
+    fields[field] = vary_field(fields[field], kind)
+    return "|".join(fields)
 
 
 def pct(b: bytes) -> bytes:
@@ -247,7 +287,7 @@ def _text_of(raw: bytes):
 
 
 def _has_ctl(t: str) -> bool:
-    return any(ord(c) < 0x20 or ord(c) == 0x7F for c in t)
+    return any((ord(c) < 0x20 and c != "\t") or ord(c) == 0x7F for c in t)
 
 
 def evaluate(case):
@@ -255,7 +295,9 @@ def evaluate(case):
     labels = {"app_v%d" % version, "method:" + method}
     cookie, cl = build_cookie(version, seed, cookie_spec)
     labels |= cl
-    cdec = dec(cookie) if cookie else ("bad",)
+    # the request cookie parser trims whitespace around a cookie value (browser behaviour): the server sees this
+    cookie_seen = cookie.strip() if cookie is not None else None
+    cdec = dec(cookie_seen) if cookie_seen else ("bad",)
     if cookie == "":
         labels.add("cookie_empty")
     if cookie and cdec == ("bad",):
@@ -425,6 +467,7 @@ cookie_s = st.one_of(
     st.just(("absent",)),
     st.tuples(st.just("literal"), st.sampled_from(MALFORMED)),
     st.tuples(st.just("literal"), st.text(alphabet="0123456789abcdefABCDEFxyz|_.-", max_size=12)),
+    st.tuples(st.sampled_from(["variant2", "variant1"]), st.integers(0, 3), st.sampled_from(VARIANT_KINDS)),
 )
 valid_token_s = st.one_of(
     st.just(("cookie_value",)),
@@ -432,8 +475,9 @@ valid_token_s = st.one_of(
     st.tuples(st.just("remask"), mask_s, ts_s),
     st.tuples(st.just("v1hex"), st.booleans()),
 )
+variant_token_s = st.tuples(st.just("variant"), valid_token_s, st.integers(0, 3), st.sampled_from(VARIANT_KINDS))
 token_s = st.one_of(
-    valid_token_s, valid_token_s,
+    valid_token_s, valid_token_s, variant_token_s,
     st.tuples(st.just("other_session"),),
     st.tuples(st.just("mutate"), valid_token_s, st.integers(0, 80), st.sampled_from("0123456789abcdefABCDEF|x")),
     st.tuples(st.just("literal"), st.sampled_from(MALFORMED + [" ", "2|00000000||5"])),
@@ -472,6 +516,20 @@ def edge_cases():
                 yield (version, seed, ("issued",), [(carrier, ("literal", bad))], "POST")
             yield (version, seed, ("enc2", b"abcd", "5"), [("query", ("literal", bad))], "DELETE")
             yield (version, seed, ("issued",), [("multipart", ("literal", bad))], "PATCH")
+        # malformed-token family: whitespace / sign / underscore / prefix variants inside EACH field of v2 and v1
+        # tokens (against a good cookie) and cookies (against a good token); only "upper" is a valid spelling
+        for kind in VARIANT_KINDS:
+            for field in (0, 1, 2, 3):
+                for base in (("cookie_value",), ("remask", b"wxyz", "7")):
+                    for carrier in ("form", "x-xsrftoken"):
+                        yield (version, b"\x0b", ("enc2", b"abcd", "5"), [(carrier, ("variant", base, field, kind))], "POST")
+                yield (version, b"\x0b", ("variant2", field, kind), [("form", ("remask", b"wxyz", "7"))], "POST")
+                yield (version, b"\x0b", ("variant2", field, kind), [("x-csrftoken", ("cookie_value",))], "PUT")
+            for carrier in ("form", "query", "x-xsrftoken"):
+                yield (version, b"\x0b", ("enc1", False), [(carrier, ("variant", ("v1hex", False), 0, kind))], "POST")
+                yield (version, b"\x0b", ("enc2", b"abcd", "5"), [(carrier, ("variant", ("v1hex", True), 0, kind))], "POST")
+            yield (version, b"\x0b", ("variant1", 0, kind), [("form", ("v1hex", False))], "POST")
+            yield (version, b"\x0b", ("variant1", 0, kind), [("form", ("remask", b"wxyz", "7"))], "DELETE")
         # every method other than GET/HEAD/OPTIONS is gated, application-defined ones included: no token,
         # a foreign token, a malformed one, a mutated one -> 403; the issued / re-masked token -> handler runs
         for method in CUSTOM_METHODS + ["POST", "PUT", "PATCH", "DELETE"]:
